@@ -896,4 +896,13 @@ example : ∃ (s1 s2 : VM) (c m : String) (x : InstX),
 /-- … and the computed run: the activated flow fails (STOPPED), two events are queued (ColangError, FlowFailed), no StartFlow -/
 example : ∃ s', advanceHeadFront 4 [("f", "h")] demoVM4 = .ok [] s' ∧ startCount s' = 0 ∧ s'.r.queue.length = 2 ∧
     (findInst s'.ixs.ix "f").map (·.status) = some .stopped := ⟨_, rfl, rfl, rfl, rfl⟩
+
+/-- contrast (kernel-evaluated): the same activated flow already STARTED (it passed a wait) — here the restart is wanted: the
+    `except` branch puts the restart `StartFlow` at the FRONT of the queue, before `ColangError` and `FlowFailed` -/
+def demoIx5 : IxS :=
+  ((({} : IxS).apply (.addInst "f" "h" none) (by decide)).apply (.setFlowStatus "f" .starting) (by decide)).apply
+    (.setFlowStatus "f" .started) (by decide)
+def demoVM5 : VM := { demoVM4 with ixs := demoIx5 }
+example : ∃ s', advanceHeadFront 4 [("f", "h")] demoVM5 = .ok [] s' ∧ startCount s' = 1 ∧
+    s'.r.queue.map (·.ev.name) = ["StartFlow", "ColangError", "FlowFailed"] := ⟨_, rfl, rfl, rfl⟩
 end NemoVerif.C10.VM
